@@ -26,6 +26,9 @@ pids=()
 if [[ " $WANT " == *" e2 "* ]]; then
   ( go build -trimpath -o "$OUT/e2" ./internal/verifsim/cmd/e2 >"$S/e2.log" 2>&1 ) & pids+=($!)
 fi
+if [[ " $WANT " == *" selftest "* ]]; then
+  ( go build -trimpath -o "$OUT/selftest" ./internal/verifsim/cmd/selftest >"$S/st.log" 2>&1 ) & pids+=($!)
+fi
 if [[ " $WANT " == *" e1 "* ]]; then
   "$VERIF/bin/rewrite" "$S/src" >"$S/rw.log" 2>&1 || { cat "$S/rw.log"; fail "import substitution failed"; }
   cp "$VERIF"/sim/e1main/*.go cmd/gts/
@@ -34,7 +37,7 @@ fi
 rc=0
 for p in "${pids[@]}"; do wait "$p" || rc=1; done
 if [ $rc -ne 0 ]; then
-  cat "$S"/e1.log "$S"/e2.log 2>/dev/null
+  cat "$S"/e1.log "$S"/e2.log "$S"/st.log 2>/dev/null
   fail "go build of the simulator binaries failed"
 fi
 exit 0
